@@ -62,7 +62,7 @@ func templatePath(verif, fn string) string {
 	return filepath.Join(verif, "replay", sanitize(fn)+".go.tmpl")
 }
 
-func runReplay(P *Prog, o *Obligation, e *FnExec) (src string, out string, confirmed bool) {
+func runReplay(P *Prog, o *Obligation, pkgPath string) (src string, out string, confirmed bool) {
 	tp := templatePath(P.verif, o.Func)
 	data, err := os.ReadFile(tp)
 	if err != nil {
@@ -108,7 +108,7 @@ func runReplay(P *Prog, o *Obligation, e *FnExec) (src string, out string, confi
 		return "", "template error: " + err.Error(), false
 	}
 	src = buf.String()
-	return runReplaySource(P.repo, P.verif, e.fn.Pkg.Pkg.Path(), P.modPath, src)
+	return runReplaySource(P.repo, P.verif, pkgPath, P.modPath, src)
 }
 
 // runReplaySource injects src as an in-package test and runs it.
